@@ -32,7 +32,31 @@ func (obj Symbol) Readably(b []byte, p *Printer) []byte {
 			return obj.appendPiped(b, p)
 		}
 	}
+	if obj.readsAsOther(p) {
+		return obj.appendPiped(b, p)
+	}
 	return append(b, p.caseName(string(obj))...)
+}
+
+// readsAsOther returns true if the reader, with *read-base* the same as the
+// print base, would take the bare name as a number or a time and not as a
+// symbol.
+func (obj Symbol) readsAsOther(p *Printer) bool {
+	base := int(p.Base)
+	if base < 2 || 36 < base {
+		base = 10
+	}
+	// Only a name that starts like a number or a time needs the closer look.
+	switch c := obj[0]; {
+	case c == '@', c == '+', c == '-', c == '.', '0' <= c && c <= '9':
+	case 10 < base && 'a' <= (c|0x20) && int(c|0x20) < 'a'+base-10:
+	default:
+		return false
+	}
+	r := reader{rbase: base, intRx: intRxs[base], ratioRx: ratioRxs[base], floatType: DoubleFloatSymbol}
+	_, ok := r.resolveToken([]byte(obj)).(Symbol)
+
+	return !ok
 }
 
 // appendPiped appends the symbol name between | characters. A | or \ in the
